@@ -505,6 +505,23 @@ pub mod libc {
 
     pub const ESTALE: i32 = 116;
 
+    pub const LOCK_SH: i32 = 1;
+
+    pub const LOCK_EX: i32 = 2;
+
+    pub const LOCK_NB: i32 = 4;
+
+    pub const LOCK_UN: i32 = 8;
+
+    /// flock(2) (C06 C20): never called; precondition `false`.
+    #[verifier::external_body]
+    pub fn flock(fd: i32, op: i32) -> (rc: i32)
+        requires
+            false,   // @L C06 C20:no-operation-ever-takes-a-lock
+    {
+        unimplemented!()
+    }
+
     /// close(2): no effect on the modelled filesystem (descriptors are not modelled); a failure is a counted hard fault.
     #[verifier::external_body]
     pub fn close(fd: i32, Tracked(w): Tracked<&mut World>) -> (rc: i32)
@@ -1078,6 +1095,47 @@ pub mod std {
                         },
                         Err(e) => final(w).same_fs(*old(w)) && final(w).hard_faults == old(w).hard_faults + 1,
                     },
+            {
+                unimplemented!()
+            }
+
+            /// Advisory locks (C06 C20): the crate is lock-free.  These stand-ins can never be called: precondition `false`.
+            #[verifier::external_body]
+            pub fn lock(&self) -> (r: std::io::Result<()>)
+                requires
+                    false,   // @L C06 C20:no-operation-ever-takes-a-lock
+            {
+                unimplemented!()
+            }
+
+            #[verifier::external_body]
+            pub fn lock_shared(&self) -> (r: std::io::Result<()>)
+                requires
+                    false,   // @L C06 C20:no-operation-ever-takes-a-lock
+            {
+                unimplemented!()
+            }
+
+            #[verifier::external_body]
+            pub fn try_lock(&self) -> (r: std::io::Result<()>)
+                requires
+                    false,   // @L C06 C20:no-operation-ever-takes-a-lock
+            {
+                unimplemented!()
+            }
+
+            #[verifier::external_body]
+            pub fn try_lock_shared(&self) -> (r: std::io::Result<()>)
+                requires
+                    false,   // @L C06 C20:no-operation-ever-takes-a-lock
+            {
+                unimplemented!()
+            }
+
+            #[verifier::external_body]
+            pub fn unlock(&self) -> (r: std::io::Result<()>)
+                requires
+                    false,   // @L C06 C20:no-operation-ever-takes-a-lock
             {
                 unimplemented!()
             }
